@@ -120,14 +120,25 @@ def build(spec):
 
     A = mkarch(spec['A'])
     S = mkarch(spec['S'])
-    c = ka.cache(archive=A)
-    c.__swap__ = S
+    # decoration happens in the configuration the history started from (`arch0`: archive attached or not); whatever a
+    # decorator captures at that moment must stay right when the archive is toggled later
+    arch0 = spec.get('arch0')
+    if arch0 == 'dict':
+        c = ka.cache(archive=ka.dict_archive())
+    elif arch0 == 'none':
+        c = ka.cache(archive=ka.null_archive())
+    else:
+        c = ka.cache(archive=A)
+        c.__swap__ = S
     kwargs = dict(cache=c, keymap=RK())
     if spec['cls'] not in ('no_cache', 'inf_cache'):
         kwargs['maxsize'] = spec['maxsize']
         kwargs['purge'] = spec['purge']
     dec = cls(**kwargs)
     w = dec(F)
+    if arch0 is not None:
+        c.__archive__ = A
+        c.__swap__ = S
     roles = find_roles(w)
     sentinel = roles['sentinel']
     se = spec.get('sentinel_elem')
